@@ -232,6 +232,8 @@ func main() {
 		mapranges()
 	case "pipeline":
 		pipeline()
+	case "visitor":
+		visitorFacts()
 	case "passes":
 		passes()
 	}
